@@ -1,1 +1,108 @@
-/-! # C05 — property theorems (to be filled in) -/
+import JokerVerif.Lemmas.HistLemmas
+import JokerVerif.Props.C16
+/-!
+# C05 — results do not depend on batching, pool, cache path or call history
+
+Property theorems only (model: `Model/Hist.lean`).  All statements hold for every scalar type `α`, every
+choice of the external routines `X : Ext α`, every numeric core `w : Worker α` / `wp : PostWorker α` that
+respects the declared read-set (immutable part + the three buffers a step rewrites first), every library,
+every history and every partition — no bound on any size.
+-/
+namespace Hist
+
+variable {α : Type}
+
+/-- every scratch cell read by a step is written earlier in the same step: two helpers that agree on the
+immutable part return the same value, whatever their scratch buffers contain (marginal likelihood and
+posterior draw) -/
+theorem step_out_indep_of_scratch (X : Ext α) (w : Worker α) (wp : PostWorker α) (h h' : Helper α)
+    (op : Op α) (himm : h.imm = h'.imm) :
+    (stepOp X w wp h op).2 = (stepOp X w wp h' op).2 :=
+  stepOp_out X w wp h h' op himm
+
+/-- no step writes the immutable part -/
+theorem step_preserves_imm (X : Ext α) (w : Worker α) (wp : PostWorker α) (h : Helper α) (op : Op α) :
+    (stepOp X w wp h op).1.imm = h.imm :=
+  stepOp_imm X w wp h op
+
+/-- for every list of earlier operations `ops` (marginal likelihoods and posterior draws of any samples, in
+any order) on a helper in any initial scratch state, the next operation returns what a pristine helper
+returns for it alone -/
+theorem history_independence (X : Ext α) (w : Worker α) (wp : PostWorker α) (scr0 : Scratch α)
+    (ops : List (Op α)) (h : Helper α) (op : Op α) :
+    (stepOp X w wp (runOps X w wp h ops).1 op).2 = evalFresh X w wp h.imm scr0 op := by
+  have := (runOps_spec X w wp scr0 ops h).2
+  exact stepOp_out X w wp _ ⟨h.imm, scr0⟩ op this
+
+/-- the outputs of a whole history are the fresh values, in order -/
+theorem history_outputs (X : Ext α) (w : Worker α) (wp : PostWorker α) (scr0 : Scratch α)
+    (ops : List (Op α)) (h : Helper α) :
+    (runOps X w wp h ops).2 = ops.map (evalFresh X w wp h.imm scr0) :=
+  (runOps_spec X w wp scr0 ops h).1
+
+/-- a helper rebuilt from `__reduce__` in a worker process has the immutable part of the original, whatever
+the original went through before it was pickled -/
+theorem rebuild_reduce_imm (X : Ext α) (w : Worker α) (wp : PostWorker α) (zero : α) (ops : List (Op α))
+    (h : Helper α) : (rebuild zero (reduce (runOps X w wp h ops).1)).imm = h.imm :=
+  (runOps_spec X w wp h.scr ops h).2
+
+/-- for EVERY partition of the rows into consecutive blocks, each block evaluated on ANY helper with the
+same immutable part (fresh, reused after arbitrary work, or rebuilt from `__reduce__`), the concatenation in
+task order equals the per-row fresh values in input order -/
+theorem batching_independence (X : Ext α) (w : Worker α) (scr0 : Scratch α) (i : Imm α)
+    (parts : List (List (Theta α))) (helpers : List (Helper α))
+    (hlen : helpers.length = parts.length) (himm : ∀ h ∈ helpers, h.imm = i) :
+    runBatches X w helpers parts = parts.flatten.map (llFresh X w i scr0) :=
+  runBatches_spec X w scr0 i parts helpers hlen himm
+
+/-- in particular for the partition `batch_tasks` produces (C16), for every integer `n_batches`:
+the result is `lib.map fresh`, i.e. one value per library row, in input order -/
+theorem batching_independence_batch_tasks (X : Ext α) (w : Worker α) (scr0 : Scratch α) (i : Imm α)
+    (lib : List (Theta α)) (hn : 1 ≤ lib.length) (nBatches : Int) (helpers : List (Helper α))
+    (hlen : helpers.length = (blocks lib nBatches).length) (himm : ∀ h ∈ helpers, h.imm = i) :
+    runBatches X w helpers (blocks lib nBatches) = lib.map (llFresh X w i scr0) := by
+  rw [batching_independence X w scr0 i _ helpers hlen himm]
+  congr 1
+  have := Batch.batches_cover_whole_arr lib nBatches hn
+  unfold blocks
+  rw [← List.flatMap_id', List.flatMap_map] at *
+  simpa using this
+
+/-- two execution paths (different `n_batches`, different helpers — serial reuse or per-task rebuilds) give
+the same list of likelihoods -/
+theorem paths_agree (X : Ext α) (w : Worker α) (scr0 : Scratch α) (i : Imm α)
+    (lib : List (Theta α)) (hn : 1 ≤ lib.length) (nb₁ nb₂ : Int) (hs₁ hs₂ : List (Helper α))
+    (hl₁ : hs₁.length = (blocks lib nb₁).length) (hl₂ : hs₂.length = (blocks lib nb₂).length)
+    (hi₁ : ∀ h ∈ hs₁, h.imm = i) (hi₂ : ∀ h ∈ hs₂, h.imm = i) :
+    runBatches X w hs₁ (blocks lib nb₁) = runBatches X w hs₂ (blocks lib nb₂) := by
+  rw [batching_independence_batch_tasks X w scr0 i lib hn nb₁ hs₁ hl₁ hi₁,
+      batching_independence_batch_tasks X w scr0 i lib hn nb₂ hs₂ hl₂ hi₂]
+
+/-- equal seeds (the same recorded uniforms `uu`) ⇒ the same accepted positions on every path -/
+theorem accepted_set_path_independent (X : Ext α) (w : Worker α) (scr0 : Scratch α) (i : Imm α)
+    (lib : List (Theta α)) (hn : 1 ≤ lib.length) (nb₁ nb₂ : Int) (hs₁ hs₂ : List (Helper α))
+    (hl₁ : hs₁.length = (blocks lib nb₁).length) (hl₂ : hs₂.length = (blocks lib nb₂).length)
+    (hi₁ : ∀ h ∈ hs₁, h.imm = i) (hi₂ : ∀ h ∈ hs₂, h.imm = i)
+    (acc : α → α → α → Bool) (mx : List α → α) (uu : List α) (maxPost : Nat) :
+    accepted acc mx (runBatches X w hs₁ (blocks lib nb₁)) uu maxPost =
+      accepted acc mx (runBatches X w hs₂ (blocks lib nb₂)) uu maxPost :=
+  accepted_congr acc mx _ _ uu maxPost (paths_agree X w scr0 i lib hn nb₁ nb₂ hs₁ hs₂ hl₁ hl₂ hi₁ hi₂)
+
+/-! ### non-vacuity: a concrete machine over `Nat` whose work buffers really carry the previous sample -/
+
+private def xN : Ext Nat := ⟨fun t t0 θ => t.map (· + t0 + θ.P), fun a b c P e => a + b + c + P + e, fun iv s => iv + s⟩
+private def wN : Worker Nat := fun i r s l => (r.sum + s.sum + l + i.mu.sum, r ++ s)
+private def wpN : PostWorker Nat := fun _ r s l z => (z.map (· + r.sum + l), s ++ r)
+private def iN : Imm Nat := ⟨[1, 2], [5, 6], [3, 4], 7, [[1, 1]], [0, 0], [9], false, 0, 2, 3, 4⟩
+private def th (p : Nat) : Theta Nat := ⟨p, 1, 2, 3, p + 1⟩
+private def scrA : Scratch Nat := ⟨[], [], 0, []⟩
+private def scrB : Scratch Nat := ⟨[99, 98], [97], 96, [95, 94]⟩
+
+example : (runOps xN wN wpN ⟨iN, scrB⟩ [.marg (th 1), .post (th 5) [1, 2], .marg (th 2)]).2
+    = [.marg (th 1), .post (th 5) [1, 2], .marg (th 2)].map (evalFresh xN wN wpN iN scrA) := by decide
+example : (runOps xN wN wpN ⟨iN, scrB⟩ [.marg (th 1)]).1.scr ≠ scrB := by decide
+example : runBatches xN wN [⟨iN, scrA⟩, ⟨iN, scrB⟩] (blocks [th 1, th 2, th 3] 2)
+    = [th 1, th 2, th 3].map (llFresh xN wN iN scrA) := by decide
+example : blocks [th 1, th 2, th 3] 2 = [[th 1, th 2], [th 3]] := by decide
+
+end Hist
